@@ -1,20 +1,30 @@
 #!/bin/sh
-# Runs the repository's pinned suite (BASELINE.json command) with the hook guard OFF and
-# compares against BASELINE.json's stable_pass list.  -n 16 (pytest-xdist) only parallelises.
+# Runs the repository's pinned suite with the hook guard OFF and compares against
+# BASELINE.json's stable_pass list.
+#   tools/baseline.sh fast [outdir]  - one pytest process per test file, 14 in parallel (~10 min)
+#   tools/baseline.sh full [outdir]  - the exact BASELINE.json command, serial (13-45 min)
 unset PANDERA_VERIF
-OUT="${1:-/tmp/pandera-baseline.junit.xml}"
-cd /repo && /venv/bin/python -m pytest -ra -q -p no:cacheprovider --timeout=900 --continue-on-collection-errors -n ${VERIF_PROCS:-16} --junitxml="$OUT" >/tmp/pandera-baseline.log 2>&1
+MODE="${1:-fast}"
+OUT="${2:-/tmp/pandera-baseline}"
+rm -rf "$OUT"; mkdir -p "$OUT"
+cd /repo || exit 2
+if [ "$MODE" = full ]; then
+  /venv/bin/python -m pytest -ra -q -p no:cacheprovider --timeout=900 --continue-on-collection-errors --junitxml="$OUT/all.xml" >"$OUT/log" 2>&1
+else
+  find tests -name "test_*.py" | sort | xargs -P 14 -I{} sh -c '/venv/bin/python -m pytest -ra -q -p no:cacheprovider --timeout=900 --continue-on-collection-errors --junitxml="'"$OUT"'/$(echo {} | tr / _).xml" {} >"'"$OUT"'/$(echo {} | tr / _).log" 2>&1'
+fi
 /venv/bin/python - "$OUT" <<'PY'
-import json, sys, xml.etree.ElementTree as ET
+import glob, json, sys, xml.etree.ElementTree as ET
 base = json.load(open("/root/.vp/BASELINE.json"))
 stable = set(base["stable_pass"])
 passed = set()
-for tc in ET.parse(sys.argv[1]).getroot().iter("testcase"):
-    if not any(ch.tag in ("failure", "error", "skipped") for ch in tc):
-        passed.add(f"{tc.get('classname')}::{tc.get('name')}")
+for f in glob.glob(sys.argv[1] + "/*.xml"):
+    for tc in ET.parse(f).getroot().iter("testcase"):
+        if not any(ch.tag in ("failure", "error", "skipped") for ch in tc):
+            passed.add(f"{tc.get('classname')}::{tc.get('name')}")
 missing = sorted(stable - passed)
 print(f"stable_pass={len(stable)} passed_now={len(passed)} missing={len(missing)}")
-for m in missing[:40]:
+for m in missing[:60]:
     print("  MISSING", m)
 sys.exit(1 if missing else 0)
 PY
